@@ -22,12 +22,13 @@ REQUIRED_MONITORS = ["C08.generation>=0", "C08.generation==0-where-E==0", "C08.g
                      "C08.generation:linear-in-E-at-fixed-roughness", "C08.dissipation<=0", "C08.dissipation==0-where-E==0",
                      "C08.dissipation:empty-spectrum==0", "C08.generation.bulk==integral(rate)",
                      "C08.dissipation.bulk==integral(rate)", "C08.imbalance==gen+diss-dEdt",
-                     "C08.bulk-imbalance==gen+diss-m0(dEdt)", "C08.batch==single", "C08.batch:shuffle-equivariant"]
-REQUIRED_COUNTERS = {"C08.pair:st4/st4": 3, "C08.pair:st4/st6": 3, "C08.pair:st4/romero": 1,
+                     "C08.bulk-imbalance==gen+diss-m0(dEdt)", "C08.batch==single", "C08.batch:shuffle-equivariant", "C08.reused-object==fresh-object"]
+REQUIRED_COUNTERS = {"C08.cases_on_a_reused_source_term_object": 3, "C08.pair:st4/st4": 3, "C08.pair:st4/st6": 3, "C08.pair:st4/romero": 1,
                      "C08.input:friction_velocity": 2, "C08.finite_depth_points": 3}
 TIMEOUT = {"quick": 1500, "thorough": 5400}
 N = {"quick": (6, 10), "thorough": (12, 120)}
 JOBS = 16
+_BALANCES = {}
 
 
 def plan(tier, seed):
@@ -43,7 +44,14 @@ def judge(ctx, c):
     import xarray
     pair = c["pair"]
     gen_name, dis_name = pair.split("/")
-    b = wl.make_balance(gen_name, dis_name, c.get("gen_params"), c.get("dis_params"))
+    # source-term objects are long-lived in real use: one object per (pair, parameter set) is reused for every case
+    # of the shard, so that state kept on the object between calls (grids, work arrays) would be observed
+    bkey = (pair, repr(c.get("gen_params")), repr(c.get("dis_params")))
+    b = _BALANCES.get(bkey)
+    if b is None:
+        b = _BALANCES[bkey] = wl.make_balance(gen_name, dis_name, c.get("gen_params"), c.get("dis_params"))
+    else:
+        ctx.count("C08.cases_on_a_reused_source_term_object")
     s = wl.build(c)
     E = np.asarray(c["E"], float)
     n, nf, nd = E.shape
@@ -141,6 +149,34 @@ def judge(ctx, c):
         if ok:
             ctx.check("C08.dissipation:empty-spectrum==0", bool(np.all(np.asarray(d0.values) == 0)), wit,
                       key="C08:dissipation:empty")
+    # ---- a second spectrum of the *same shape* on different grids (frequencies stretched, directions offset by half
+    #      a bin), evaluated with the same source-term objects: bulk rates must use that spectrum's own bins
+    c_sib = dict(c)
+    c_sib["freq"] = np.asarray(c["freq"]) * 1.37
+    c_sib["dir"] = (np.asarray(c["dir"]) + 180.0 / nd) % 360.0
+    s_sib = wl.build(c_sib)
+    df2, dth2 = wl.steps(s_sib)
+    area2 = df2[:, None] * dth2[None, :]
+    okr, r_s = guarded(ctx, "C08.no-exception",
+                       lambda: b.generation.rate(s_sib, speed, wd, roughness_length=zda, wind_speed_input_type=itype), wit,
+                       key="C08:exception:generation.rate")
+    okb_, b_s = guarded(ctx, "C08.no-exception",
+                        lambda: b.generation.bulk_rate(s_sib, speed, wd, roughness_length=zda, wind_speed_input_type=itype), wit,
+                        key="C08:exception:generation.bulk_rate")
+    if okr and okb_:
+        ctx.close("C08.generation.bulk==integral(rate)", b_s.values, np.sum(np.asarray(r_s.values, float) * area2[None], axis=(1, 2)),
+                  atol=1e-300, rtol=1e-9, case=wit, key="C08:generation:bulk:second-grid")
+    okr, d_s = guarded(ctx, "C08.no-exception", lambda: b.dissipation.rate(s_sib), wit, key="C08:exception:dissipation.rate")
+    okb_, db_s = guarded(ctx, "C08.no-exception", lambda: b.dissipation.bulk_rate(s_sib), wit, key="C08:exception:dissipation.bulk")
+    if okr and okb_:
+        ctx.close("C08.dissipation.bulk==integral(rate)", db_s.values, np.sum(np.asarray(d_s.values, float) * area2[None], axis=(1, 2)),
+                  atol=1e-300, rtol=1e-9, case=wit, key="C08:dissipation:bulk:second-grid")
+        # and the result equals what a fresh object gives for that spectrum
+        fresh = wl.make_balance(gen_name, dis_name, c.get("gen_params"), c.get("dis_params"))
+        okf, d_f = guarded(ctx, "C08.no-exception", lambda: fresh.dissipation.rate(s_sib), wit, key="C08:exception:dissipation.rate")
+        if okf:
+            ctx.close("C08.reused-object==fresh-object", d_s.values, d_f.values,
+                      atol=1e-12 * float(np.max(np.abs(d_f.values), initial=0)), rtol=1e-12, case=wit, key="C08:reuse")
     # ---- imbalance (u10 input only: evaluate_* do not take an input type)
     if itype == "u10":
         dE = np.asarray(c["dEdt"], float)
@@ -217,6 +253,14 @@ def make(rng, i):
     dsets = wl.DIS_PARAM_SETS[pair.split("/")[1]]
     dis_params = dsets[int(rng.integers(0, len(dsets)))] if rng.uniform() < 0.4 else None
     E = np.asarray(c["E"])
+    if E.shape[0] >= 2 and not positive and rng.uniform() < 0.35:
+        # a batch with an empty member (not the last one) and depths that differ from member to member
+        j = int(rng.integers(0, E.shape[0] - 1))
+        E = E.copy()
+        E[j] = 0.0
+        c["E"] = E
+        c["depth"] = 10 ** rng.uniform(0.7, 2.5, E.shape[0])
+        c["kind"] = c["kind"] + "+empty-member"
     c.update({"pair": pair, "gen_params": gen_params, "dis_params": dis_params,
               "input_type": "friction_velocity" if i % 4 in (2, 3) else "u10",
               "scale": float(rng.uniform(0.3, 3.0)),
